@@ -79,6 +79,30 @@ Section Gen.
   Corollary comb_undefined_iff (f : E -> E -> E) a b : comb f a b = None <-> a = None \/ b = None.
   Proof. destruct a, b; simpl; split; intro H; try discriminate; auto; destruct H; discriminate. Qed.
 
+  (* ---------------------------------------------------------------- Corr (op) scalar / observable *)
+  Variable S : Type.
+  Variables eaddS emulS : E -> S -> E.
+  Lemma scalar_loop (f : E -> E) (c : content) :
+    py_for (py_upto (zlen c)) ([] : content)
+      (fun st v_t => t1 <- py_index c v_t ;;
+         if is_none t1 then Ok (st ++ [None])
+         else t2 <- py_index c v_t ;; t3 <- py_eun f t2 ;; Ok (st ++ [Some t3]))
+    = Ok (map (option_map f) c).
+  Proof.
+    unfold zlen. rewrite py_upto_seq.
+    rewrite (py_for_append (fun z => option_map f (onth c (Z.to_nat z)))).
+    - cbn [app]. rewrite map_map. f_equal. rewrite <- (map_nth_seq (option_map f) c None). apply map_ext. intro k. rewrite Nat2Z.id. reflexivity.
+    - intros st x Hx. apply in_map_iff in Hx. destruct Hx as [k [<- Hk]]. apply in_seq in Hk. cbv beta.
+      rewrite !(py_index_onth c k) by lia. cbn [bind]. rewrite Nat2Z.id.
+      destruct (onth c k) as [u|]; reflexivity.
+  Qed.
+  Theorem add_scalar_is_timeslicewise (c : content) N (y : S) :
+    corr_add_scalar E S eaddS c N y = Ok (map (option_map (fun x => eaddS x y)) c).
+  Proof. unfold corr_add_scalar. cbv zeta. rewrite (scalar_loop (fun x => eaddS x y) c). reflexivity. Qed.
+  Theorem mul_scalar_is_timeslicewise (c : content) N (y : S) :
+    corr_mul_scalar E S emulS c N y = Ok (map (option_map (fun x => emulS x y)) c).
+  Proof. unfold corr_mul_scalar. cbv zeta. rewrite (scalar_loop (fun x => emulS x y) c). reflexivity. Qed.
+
   (* ---------------------------------------------------------------- thin *)
   Theorem thin_closed_form (c : content) spacing offset : spacing <> 0 ->
     corr_thin E spacing offset c
@@ -197,6 +221,7 @@ Proof.
 Qed.
 
 Print Assumptions add_is_timeslicewise.
+Print Assumptions add_scalar_is_timeslicewise.
 Print Assumptions mul_is_timeslicewise.
 Print Assumptions thin_is_model.
 Print Assumptions symmetric_closed_form.
